@@ -1,19 +1,25 @@
 ---------------------------- MODULE ConsensusGroup ----------------------------
-(* Layer 2 of C15: indexHashedNodesCoordinator.ComputeConsensusGroup with the group cache. *)
+(***************************************************************************)
+(* Layer 2 of C15: indexHashedNodesCoordinator.ComputeConsensusGroup.       *)
+(*                                                                          *)
+(* A node is <<class, kind, name>>:                                          *)
+(*   class "plain" -- indexHashedNodesCoordinator (ValidatorsWeights = 1),   *)
+(*         "rater" -- ...WithRater (weight = max(chances, GetChance(0))),    *)
+(*   kind  "lru" (a real, evicting group cache) | "none" | "fresh" | ...     *)
+(* Every node has its own per (epoch, shard) configuration and cache;        *)
+(* EpochStartPrepare installs a configuration and clears the cache.          *)
+(* All nodes of a class see the same hash function H (seed = randomness and  *)
+(* round) -- discovered lazily: the first computation fixes the values.      *)
+(* memo remembers the first group observed per (class, seed, epoch, shard):  *)
+(* "every node computes the same group for the same inputs".                 *)
+(***************************************************************************)
 EXTENDS SelectionOps
 
------------------------------------------------------------------------------
-(* Layer 2: ComputeConsensusGroup with the group cache, several nodes *)
-
-CONSTANTS Seeds,      \* randomness/round pairs (abstract)
-          Epochs, ShardIds,
-          Classes     \* "plain" (weights all 1) | "rater" (weights max(chance, minChance))
-
-VARIABLES cfg,     \* <<class, epoch, shard>> -> [elig: Seq(key), ch: Seq(chance), minch, size]
-          H,       \* seed -> sequence of 64 bit values (the hash function, discovered lazily)
-          cache,   \* node -> (key -> group)     key = <<class, seed, epoch, shard>>
+VARIABLES cfg,     \* <<node, epoch, shard>> -> [elig: Seq(key), ch: Seq(chance), minch, size]
+          H,       \* <<class, seed>> -> sequence of 64 bit values (limbs)
+          cache,   \* node -> (key -> group),  key = <<class, seed, epoch, shard>>
           memo,    \* key -> first group observed for this key under the current configuration
-          last     \* last observed ComputeConsensusGroup record
+          last     \* last observed selection record (what the property invariants look at)
 
 cvars2 == <<cfg, H, cache, memo, last>>
 
@@ -25,45 +31,64 @@ GroupOf(c, class, xs) ==
     LET r == SelectAll(CfgWeights(c, class), c.size, xs)
     IN  [err |-> r.err, group |-> [i \in 1..Len(r.sel) |-> c.elig[r.sel[i] + 1]]]
 
-NoneLast == [key |-> <<>>, group |-> <<>>, err |-> "", size |-> 0, elig |-> <<>>]
+NoneLast == [key |-> <<>>, group |-> <<>>, err |-> "", size |-> 0, elig |-> <<>>, valid |-> FALSE]
 
-(* EpochStartPrepare, projected: installs the configuration of (class, epoch) for all shards and clears the caches *)
-SetConfig(class, ep, newc) ==
-    /\ cfg' = [k \in (DOMAIN cfg \cup {<<class, ep, sh>> : sh \in DOMAIN newc}) |->
-                 IF k[1] = class /\ k[2] = ep /\ k[3] \in DOMAIN newc THEN newc[k[3]] ELSE cfg[k]]
-    /\ cache' = [n \in DOMAIN cache |-> IF n[1] = class THEN <<>> ELSE cache[n]]
-    /\ memo' = [k \in {x \in DOMAIN memo : ~(x[1] = class /\ x[3] = ep)} |-> memo[k]]
+\* the hash is a function of the seed: two calls see the same values (one may consume more of them)
+Agree(xs, ys) == \A i \in 1..(IF Len(xs) < Len(ys) THEN Len(xs) ELSE Len(ys)) : xs[i] = ys[i]
+
+CacheOf(n) == IF n \in DOMAIN cache THEN cache[n] ELSE <<>>
+
+(* EpochStartPrepare (or the constructor), projected: the nodes in `ns` (all of class `class`) now hold the  *)
+(* configuration newc (shard -> config) for epoch ep.  If that is a change, their caches are cleared (as     *)
+(* coded: consensusGroupCacher.Clear() at the end of EpochStartPrepare) and what was remembered for          *)
+(* (class, ep) is forgotten -- a re-prepared epoch may legitimately yield other groups.  An EpochStartPrepare *)
+(* that fails early leaves configuration and cache as they were; one that succeeds with an identical result  *)
+(* clears the cache, which is covered because `cache` only bounds the possible hits from above.              *)
+Changed(ns, ep, newc) ==
+    \E n \in ns, sh \in DOMAIN newc : <<n, ep, sh>> \notin DOMAIN cfg \/ cfg[<<n, ep, sh>>] # newc[sh]
+SetConfig(ns, class, ep, newc, clear) ==
+    /\ cfg' = [k \in (DOMAIN cfg \cup {<<n, ep, sh>> : n \in ns, sh \in DOMAIN newc}) |->
+                 IF k[1] \in ns /\ k[2] = ep /\ k[3] \in DOMAIN newc THEN newc[k[3]] ELSE cfg[k]]
+    /\ cache' = IF clear /\ Changed(ns, ep, newc)
+                THEN [n \in DOMAIN cache \cup ns |-> IF n \in ns THEN <<>> ELSE cache[n]]
+                ELSE cache
+    /\ memo' = IF Changed(ns, ep, newc)
+               THEN [k \in {x \in DOMAIN memo : ~(x[1] = class /\ x[3] = ep)} |-> memo[k]]
+               ELSE memo
     /\ last' = NoneLast
     /\ UNCHANGED H
 
-(* ComputeConsensusGroup on node n = <<class, kind>>, kind "lru" (real cache, may evict) | "none" | "fresh";  *)
-(* xs = the hash values the call consumed (<<>> iff it was served from the cache)                            *)
-Compute(n, seed, ep, sh, xs, evictOthers) ==
+(* ComputeConsensusGroup on node n; xs = the hash values the call consumed.  xs = <<>> means the call was     *)
+(* served from the group cache: only possible for a key stored since the last clear (the group is the stored *)
+(* one).  A computation is always possible -- the real LRU may have evicted the entry (which entries a cache *)
+(* keeps is C28's business); `cache` is therefore "everything stored since the last clear".                  *)
+Compute(n, seed, ep, sh, xs) ==
     LET class == n[1]
         key   == <<class, seed, ep, sh>>
-        c     == cfg[<<class, ep, sh>>]
-        hit   == key \in DOMAIN cache[n]
-        res   == IF hit THEN [err |-> "", group |-> cache[n][key]] ELSE GroupOf(c, class, xs)
-    IN  /\ <<class, ep, sh>> \in DOMAIN cfg
-        /\ hit => xs = <<>>
-        /\ ~hit => /\ Len(xs) >= c.size
-                   /\ seed \in DOMAIN H => xs = H[seed]
-        /\ H' = IF hit \/ seed \in DOMAIN H THEN H ELSE [s \in DOMAIN H \cup {seed} |-> IF s = seed THEN xs ELSE H[s]]
+        c     == cfg[<<n, ep, sh>>]
+        hit   == xs = <<>>
+        res   == IF hit THEN [err |-> "", group |-> CacheOf(n)[key]] ELSE GroupOf(c, class, xs)
+    IN  /\ <<n, ep, sh>> \in DOMAIN cfg
+        /\ hit => n[2] = "lru" /\ key \in DOMAIN CacheOf(n)
+        /\ ~hit => (<<class, seed>> \in DOMAIN H => Agree(xs, H[<<class, seed>>]))
+        /\ H' = IF hit \/ (<<class, seed>> \in DOMAIN H /\ Len(H[<<class, seed>>]) >= Len(xs)) THEN H
+                ELSE [s \in DOMAIN H \cup {<<class, seed>>} |-> IF s = <<class, seed>> THEN xs ELSE H[s]]
         /\ cache' = IF hit \/ res.err # "" \/ n[2] # "lru" THEN cache
-                    ELSE [cache EXCEPT ![n] =
-                            [k \in (IF evictOthers THEN {} ELSE DOMAIN cache[n]) \cup {key} |->
-                                IF k = key THEN res.group ELSE cache[n][k]]]
+                    ELSE [m \in DOMAIN cache \cup {n} |->
+                            IF m # n THEN cache[m]
+                            ELSE [k \in DOMAIN CacheOf(n) \cup {key} |-> IF k = key THEN res.group ELSE CacheOf(n)[k]]]
         /\ memo' = IF key \in DOMAIN memo \/ res.err # "" THEN memo
                    ELSE [k \in DOMAIN memo \cup {key} |-> IF k = key THEN res.group ELSE memo[k]]
-        /\ last' = [key |-> key, group |-> res.group, err |-> res.err, size |-> c.size, elig |-> c.elig]
+        /\ last' = [key |-> key, group |-> res.group, err |-> res.err, size |-> c.size, elig |-> c.elig,
+                    valid |-> c.size >= 1 /\ c.size <= Len(c.elig)]
         /\ UNCHANGED cfg
 
-(* C15 on every observed ComputeConsensusGroup result *)
+(* C15 on every observed selection result *)
 Inv_C15_GroupSize     == (last.key # <<>> /\ last.err = "") => Len(last.group) = last.size
 Inv_C15_GroupDistinct == (last.key # <<>> /\ last.err = "") => NoDup(last.group)
 Inv_C15_GroupMembers  == (last.key # <<>> /\ last.err = "") => SeqToSet(last.group) \subseteq SeqToSet(last.elig)
-\* a well-formed configuration (group size <= list size, distinct keys) never yields an error
-Inv_C15_NoError       == (last.key # <<>> /\ last.size >= 1 /\ last.size <= Len(last.elig)) => last.err = ""
-\* same inputs => same group (leader included, order included), on every node, cached or not
+\* a well-formed request (1 <= group size <= list size, valid weights) always yields a group
+Inv_C15_NoError       == (last.key # <<>> /\ last.valid) => last.err = ""
+\* same inputs => same group (leader and order included), on every node of the class, cached or not
 Inv_C15_Reproducible  == (last.key # <<>> /\ last.err = "" /\ last.key \in DOMAIN memo) => last.group = memo[last.key]
 =============================================================================
